@@ -160,6 +160,14 @@ def gen_injected(rng, prof, primary_files, n):
             d = dict(o)
             d['message'] = o['message'].split('\n')[-1] + '\nanother verbose text'  # may differ in verbose only
             out.append(d)
+        elif r < 0.27 and 'column' in o:
+            d = dict(o)
+            d['column'] = o['column'] + rng.choice([1, 7, 40])   # differs in the column only: two distinct findings
+            out.append(d)
+        elif r < 0.32 and 'linenr' in o and o['linenr'] < 2 ** 31 - 1:
+            d = dict(o)
+            d['linenr'] = o['linenr'] + 1                          # differs in the line only
+            out.append(d)
     return out
 
 
